@@ -358,6 +358,14 @@ impl Ctx {
     }
 
     fn record<C: Serialize>(&self, part: &str, case: &C, obs: &Obs, panic: Option<&str>) {
+        // serialise and hash outside the lock (lattices run hundreds of thousands of cheap cases)
+        let pre = if obs.nontrivial {
+            let v = serde_json::to_value(case).unwrap_or(Value::Null);
+            let h = hash_str(&format!("{part}:{}", canonical(&v)));
+            Some((v, h))
+        } else {
+            None
+        };
         let mut st = self.stats.lock().unwrap();
         st.evaluations += 1;
         st.comparisons += obs.comparisons;
@@ -378,9 +386,7 @@ impl Ctx {
             let key: String = p.chars().take(120).collect();
             *st.panics.entry(format!("{part}/{key}")).or_default() += 1;
         }
-        if obs.nontrivial {
-            let v = serde_json::to_value(case).unwrap_or(Value::Null);
-            let h = hash_str(&format!("{part}:{}", canonical(&v)));
+        if let Some((v, h)) = pre {
             let new = st.nontrivial_hashes.insert(h);
             if new {
                 // sample: first 3 per part, plus first of each new class (cap 16)
